@@ -300,10 +300,23 @@ pub fn gen_c03(rng: &mut Rng, caseid: u64, unix: bool, bound_ms: u64) -> Gen {
             wire_body = designated.clone();
             a.add("Connection", rng.pick_s(&[" upgrade", " Upgrade", " keep-alive, Upgrade"]));
             a.add("Upgrade", " vproto");
-            lenexp = LenExp::Exactly(None);
+            // an upgrade request may carry a (meaningless) Content-Length: the body is still
+            // everything that follows; whether that length is reported is left open
+            match rng.below(4) {
+                0 => {
+                    a.add("Content-Length", " 0");
+                    lenexp = LenExp::Any;
+                }
+                1 => {
+                    a.add("Content-Length", &format!(" {}", rng.pick(&[1usize, 5, 2000])));
+                    lenexp = LenExp::Any;
+                }
+                _ => lenexp = LenExp::Exactly(None),
+            }
         }
     }
     let sizes = read_sizes(rng, len);
+    let api = *rng.pick(&[ReadApi::Read, ReadApi::Read, ReadApi::ReadVectored, ReadApi::ReadToEnd, ReadApi::ReadToString]);
     let plan = ReqPlan {
         read: ReadPlan::ToEof { extra: 3 },
         read_sizes: sizes.clone(),
@@ -311,6 +324,7 @@ pub fn gen_c03(rng: &mut Rng, caseid: u64, unix: bool, bound_ms: u64) -> Gen {
         finish: Finish::Respond { status: 200, body_len: 10, declared: true, threshold: None, max_piece: 1000 },
         pre_delay_us: 0,
         zero_read_after: None,
+            read_api: api,
     };
     p.push_valid(&a, &wire_body, designated, lenexp, plan, kind_label);
     let mut tail: Vec<u8> = Vec::new();
@@ -331,7 +345,7 @@ pub fn gen_c03(rng: &mut Rng, caseid: u64, unix: bool, bound_ms: u64) -> Gen {
         _ => ">4096",
     };
     let rs = format!("{:?}", sizes.iter().map(|s| if *s < 64 { 0 } else if *s <= 1024 { 1 } else { 2 }).collect::<Vec<_>>());
-    Gen { case, judge: Judge::all(), sig: Some(format!("{}|{}|{}", kind_label, bucket, rs)), extra: Default::default() }
+    Gen { case, judge: Judge::all(), sig: Some(format!("{}|{}|{}|{:?}", kind_label, bucket, rs, api)), extra: Default::default() }
 }
 
 // ---------------------------------------------------------------------------------------------
@@ -346,7 +360,12 @@ pub fn gen_c09(rng: &mut Rng, caseid: u64, unix: bool, bound_ms: u64) -> Gen {
         *rng.pick(&[1usize, 30, 64, 1023, 1024, 1025, 5000, 70000])
     };
     let designated = gen::body_bytes(caseid, len, true);
-    let mut a = AbsReq::new("POST", &format!("/v/{:x}/0", caseid & 0xffff_ffff), (1, 1)).h("Host", " h");
+    // the body-bearing request may be HTTP/1.0 with keep-alive (chunked needs 1.1)
+    let v10 = !chunked && rng.chance(1, 4);
+    let mut a = AbsReq::new("POST", &format!("/v/{:x}/0", caseid & 0xffff_ffff), if v10 { (1, 0) } else { (1, 1) }).h("Host", " h");
+    if v10 {
+        a.add("Connection", rng.pick_s(&[" keep-alive", " Keep-Alive"]));
+    }
     let (wire_body, kind) = if chunked {
         let mc = *rng.pick(&[1usize, 16, 300, 5000]);
         let ch = gen::gen_chunking(rng, len, mc);
@@ -373,7 +392,7 @@ pub fn gen_c09(rng: &mut Rng, caseid: u64, unix: bool, bound_ms: u64) -> Gen {
     // a zero-length read (`read(&mut [])`) somewhere in the middle is an ordinary thing for an
     // application to do; message boundaries must hold after it as well
     let zero = if !matches!(consume, ReadPlan::None) && rng.chance(1, 4) { Some(rng.below(3)) } else { None };
-    let plan = ReqPlan { read: consume.clone(), read_sizes: read_sizes(rng, len), as_reader_calls: 1, finish, pre_delay_us: 0, zero_read_after: zero };
+    let plan = ReqPlan { read: consume.clone(), read_sizes: read_sizes(rng, len), as_reader_calls: 1, finish, pre_delay_us: 0, zero_read_after: zero, read_api: ReadApi::Read };
     let clabel = plan.read_label(len);
     let flabel = plan.finish_label();
     p.push_valid(&a, &wire_body, designated, LenExp::Any, plan, kind);
@@ -393,7 +412,7 @@ pub fn gen_c09(rng: &mut Rng, caseid: u64, unix: bool, bound_ms: u64) -> Gen {
     Gen {
         case,
         judge,
-        sig: if partial || clabel == "all-no-eof" || zero.is_some() { Some(format!("{}|{}|{}|{}|z{}", kind, len, clabel, flabel, zero.is_some())) } else { None },
+        sig: if partial || clabel == "all-no-eof" || zero.is_some() { Some(format!("{}|{}|{}|{}|z{}|v10{}", kind, len, clabel, flabel, zero.is_some(), v10)) } else { None },
         extra: Default::default(),
     }
 }
@@ -615,10 +634,36 @@ pub fn gen_c12(rng: &mut Rng, caseid: u64, unix: bool, bound_ms: u64) -> Gen {
     let mut judge = Judge::all();
     judge.head_fidelity = false;
     judge.body = false;
+    let mut withheld = false;
+    if rng.chance(1, 5) {
+        // variant: a single connection-ending request that carries a streamed body which the
+        // application does not read; the client has sent only the beginning of the body and
+        // keeps its sending side open. Everything received was answered, so the server must
+        // close its sending side right after the response - without waiting for the body.
+        withheld = true;
+        let version = if rng.chance(1, 2) { (1, 0) } else { (1, 1) };
+        let blen = *rng.pick(&[1025usize, 5000, 20000]);
+        let mut a = AbsReq::new("POST", &format!("/v/{:x}/w", cid), version).h("Host", " h");
+        if version == (1, 1) {
+            a.add("Connection", rng.pick_s(&[" close", " Close"]));
+        }
+        a.add("Content-Length", &format!(" {}", blen));
+        let body = gen::body_bytes(caseid, blen, true);
+        let mut p2 = Pipe::new();
+        let mut plan = ReqPlan::simple();
+        plan.read = ReadPlan::None;
+        plan.finish = Finish::Respond { status: 413, body_len: 10, declared: true, threshold: None, max_piece: 1000 };
+        p2.push_valid(&a, &body, body.clone(), LenExp::Any, plan, "ending-withheld-body");
+        case = p2.finish(rng, "ending-withheld-body", unix, &[], false, bound_ms);
+        let head_len = case.reqs[0].head_len;
+        let sent = head_len + rng.range(0, 300);
+        // the client goes away only after it saw the end of the stream
+        case.script = vec![Step::Send(0, sent), Step::AwaitFinals(1), Step::AwaitEnd, Step::Close];
+    }
     Gen {
         case,
         judge,
-        sig: Some(format!("{:?}|mode{}|tail{}|end{:?}", sig, mode, !tail.is_empty(), ended_at)),
+        sig: Some(format!("{:?}|mode{}|tail{}|end{:?}|withheld{}", sig, mode, !tail.is_empty(), ended_at, withheld)),
         extra: Default::default(),
     }
 }
@@ -807,6 +852,7 @@ pub fn gen_c18(rng: &mut Rng, caseid: u64, unix: bool, bound_ms: u64) -> Gen {
         finish: Finish::Respond { status: 200, body_len: 12, declared: true, threshold: None, max_piece: 1000 },
         pre_delay_us: if rng.chance(1, 3) { rng.range(0, 2000) as u64 } else { 0 },
         zero_read_after: None,
+            read_api: ReadApi::Read,
     };
     p.push_valid(&a, &wire_body, body, if chunked { LenExp::Exactly(None) } else { LenExp::Exactly(Some(len)) }, plan, "expecting");
     let interims = if expecting && asks { 1 } else { 0 };
@@ -886,6 +932,7 @@ pub fn gen_c04(rng: &mut Rng, caseid: u64, unix: bool, bound_ms: u64) -> Gen {
         finish: Finish::Respond { status, body_len, declared, threshold, max_piece: *rng.pick(&[1usize, 100, 8192, 100000]).max(&(body_len / 5000 + 1)) },
         pre_delay_us: 0,
         zero_read_after: None,
+            read_api: ReadApi::Read,
     };
     p.push_valid(&a, &[], Vec::new(), LenExp::Any, plan, "first");
     // the second request proves that the client found the end of the first message
